@@ -172,6 +172,9 @@ def to_op(t):
     raise ValueError(k)
 
 
+BIG = 2000  # composites with more attributes than this are emitted to Coq as a generated term, not as a literal
+
+
 def subtypes(t, out=None):
     """All nodes of the type tree, children first."""
     if out is None:
@@ -179,9 +182,9 @@ def subtypes(t, out=None):
     k = t["k"]
     if k in ("fix", "var"):
         subtypes(t["e"], out)
-    elif k in ("struct", "union"):
+    elif k in ("struct", "union") and len(t["fs"]) <= BIG:
         for _, f in t["fs"]:
-            subtypes(f, out)
+            subtypes(f, out)   # (the members of a composite with more than BIG attributes are not observed one by one)
     elif k == "delim":
         subtypes(t["i"], out)
     out.append(t)
@@ -328,6 +331,16 @@ def emit_ty(t):
         return "(TFix %s %s)" % (emit_ty(t["e"]), G.z(t["n"]))
     if k == "var":
         return "(TVar %s %s)" % (emit_ty(t["e"]), G.z(t["n"]))
+    if k in ("struct", "union") and len(t["fs"]) > BIG:
+        # a huge composite (tag-width boundaries need 2**16 variants): its member types must be periodic; the Gallina term is
+        # generated by map/seq instead of a multi-megabyte literal. Member names do not enter the layout; they are 'v' + index here.
+        nm = G.codepoints("%s.%d.%d" % (t["name"], t["ver"][0], t["ver"][1]))
+        period = next(p for p in range(1, 9) if all(t["fs"][i][1] == t["fs"][i % p][1] for i in range(len(t["fs"]))))
+        alts = [emit_ty(t["fs"][i][1]) for i in range(period)]
+        # (a Z counter: arithmetic on unary nat indices would make the construction quadratic)
+        return ("(%s %s ((fix go (n : nat) (i : Z) {struct n} : list (option (list Z) * ty) := match n with O => [] | S m => "
+                "(Some [118; i], nth (Z.to_nat (i mod %s)) %s (TVoid 1)) :: go m (i + 1) end) (Z.to_nat %s) 0))"
+                % ("TStruct" if k == "struct" else "TUnion", nm, G.z(period), G.lst(alts), G.z(len(t["fs"]))))
     if k in ("struct", "union"):
         nm = G.codepoints("%s.%d.%d" % (t["name"], t["ver"][0], t["ver"][1]))
         fs = G.lst(["(%s, %s)" % (G.opt(None if n is None else G.codepoints(n)), emit_ty(f)) for n, f in t["fs"]])
